@@ -194,11 +194,52 @@ def history(rng, tier):
     for q in watched: w.emit(q)
     return w.lines
 
+def kept_dimension_case(rng):
+    """dimension handles kept while the descriptors change through OTHER routes — another handle of the same dimension, the array of
+    an alias dimension (its data are the ticks, its label and unit the dimension's), the array's extent — and the file is closed and
+    reopened: a kept handle shows what a fresh one shows, and the dump before the close is the dump after it"""
+    from vlib.tok import f64, lst
+    w = World(rng, names=PLAIN)
+    w.open('ow')
+    b = w.mk('B', None)
+    arrs = [w.mk('A', b, extra=[rng.choice([3, 4, 6])]) for _ in range(3)]
+    for a in arrs:
+        kinds = rng.sample(['range', 'sampled', 'set', 'alias'], rng.randint(1, 3))
+        if 'alias' in kinds: kinds = ['alias']           # an alias descriptor is the only one of its array
+        for k in kinds:
+            if k == 'range': w.emit('adim %s range %s %s %s' % (a.slot, lst([f64(x) for x in (1.0, 2.0, 3.0)]), S('l'), S('mV')))
+            elif k == 'sampled': w.emit('adim %s sampled %s %s %s %s' % (a.slot, f64(0.5), S('time'), S('ms'), f64(1.0)))
+            elif k == 'set': w.emit('adim %s set %s' % (a.slot, lst([S('p'), S('q')])))
+            else: w.emit('adim %s alias' % a.slot)
+        w.emit('xdim %s' % a.slot)
+    for _ in range(rng.randint(6, 14)):
+        a = rng.choice(arrs)
+        q = rng.random()
+        if q < 0.45:
+            f = rng.choice(['ticks', 'ticks', 'unit', 'label', 'interval', 'offset', 'labels'])
+            v = {'interval': f64(rng.choice([0.25, 2.0])), 'offset': rng.choice(['~', f64(3.0)]), 'unit': rng.choice(['~', S('s'), S('mV')]), 'label': rng.choice(['~', S('lab')]),
+                 'ticks': lst([f64(x) for x in sorted(rng.sample([0.0, 1.0, 4.0, 5.5, 10.0, 20.0, 30.0, 40.0], rng.randint(1, 4)))]), 'labels': lst([S('u'), S('v')])}[f]
+            w.emit('sdim %s %d %s %s' % (a.slot, rng.randint(1, 3), f, v))
+        elif q < 0.7:
+            w.emit('da_fill %s %s' % (a.slot, lst([f64(float(x)) for x in sorted(rng.sample(range(-5, 40), rng.randint(1, 6)))])))
+        elif q < 0.8:
+            w.emit('set %s %s' % (a.slot, rng.choice(['unit ' + S('mV'), 'unit ~', 'label ' + S('other'), 'label ~'])))
+        elif q < 0.9:
+            w.emit('da_setext %s %s' % (a.slot, lst([str(rng.choice([1, 2, 4, 6]))])))
+        w.emit('xdim %s' % a.slot)
+        if rng.random() < 0.3: w.emit('xdim %s' % rng.choice(arrs).slot)
+    w.emit('dump')
+    w.reopen(rng.choice(['ro', 'rw']))
+    w.emit('dump')
+    for a in arrs: w.emit('xdim %s' % a.slot)
+    return w.lines
+
 def cases(tier, seed, rng):
     from vlib.runner import Case
     n = 50 if tier == 'quick' else 1200
     out = [Case(with_hdump(history(rng, tier), rng), 'gen:tree') for _ in range(n)]
     out += [Case(many_handles_case(rng, k), 'gen:many-handles-at-close') for k in ((150,) if tier == 'quick' else (70, 150, 300))]
+    out += [Case(kept_dimension_case(rng), 'gen:kept-dimension-handles') for _ in range(8 if tier == 'quick' else 200)]
     out += [Case(with_hdump(readonly_setters_case(rng), rng), 'gen:readonly-setters') for _ in range(12 if tier == 'quick' else 300)]
     return out
 
